@@ -138,9 +138,22 @@ func genPCase(r *rand.Rand, e *env, overlap bool) PCase {
 	nums := knownNumbers(info)
 	names := tableNames(info)
 	nsites := []int{0, 1, 2, 5, 12, 40}[r.Intn(6)]
+	var many []int
+	if r.Intn(10) == 0 {
+		// a long final list: 254 … 300 different syscalls, or the whole table
+		nsites = []int{254, 255, 256, 257, 300, len(nums)}[r.Intn(6)]
+		if nsites > len(nums) {
+			nsites = len(nums)
+		}
+		many = r.Perm(len(nums))[:nsites]
+		e.tag("found:more-than-250-different-syscalls")
+	}
 	var foundNames []string
 	for i := 0; i < nsites; i++ {
 		num := nums[r.Intn(len(nums))]
+		if many != nil {
+			num = nums[many[i]]
+		}
 		switch r.Intn(12) {
 		case 0:
 			num = 100000 + r.Intn(50) // unknown to the table: the parser drops it with a warning
